@@ -546,7 +546,6 @@ class C2Profile(ConfigBlock):
                         block_steps[_build].append(k.lower())
                     else:
                         # log.debug(f"{k} -> {v}")
-                        v = repr(v)[2:-1]
                         block_steps[_build].append((k.lower(), v))
                 logger.debug(f"block_steps: {block_steps}")
                 if headers:
@@ -562,9 +561,9 @@ class C2Profile(ConfigBlock):
             elif setting == BeaconSetting.SETTING_PROXY_BEHAVIOR:
                 pass
             elif setting == BeaconSetting.SETTING_TCP_FRAME_HEADER and value:
-                profile.set_option("tcp_frame_header", repr(value)[2:-1])
+                profile.set_option("tcp_frame_header", value)
             elif setting == BeaconSetting.SETTING_SMB_FRAME_HEADER and value:
-                profile.set_option("smb_frame_header", repr(value)[2:-1])
+                profile.set_option("smb_frame_header", value)
             elif setting == BeaconSetting.SETTING_EXIT_FUNK:
                 pass
             elif setting == BeaconSetting.SETTING_KILLDATE:
@@ -588,8 +587,6 @@ class C2Profile(ConfigBlock):
                 prepend = ""
                 append = ""
                 for k, v in value:
-                    # v = v.decode()
-                    v = repr(v)[2:-1]
                     if k == "prepend":
                         prepend = v
                     elif k == "append":
@@ -607,7 +604,6 @@ class C2Profile(ConfigBlock):
                 prepend = ""
                 append = ""
                 for k, v in value:
-                    v = repr(v)[2:-1]
                     if k == "prepend":
                         prepend = v
                     elif k == "append":
